@@ -90,3 +90,80 @@ Proof. unfold race_free. intros H a b Ha Hb. rewrite forallb_forall in H. specia
 
 Theorem loop_access_race_free : race_free loop_access = true.
 Proof. vm_compute. reflexivity. Qed.
+
+(* ---------------- deadlock, the part that involves mutexes ----------------
+   loop_sync (regenerated from the source) lists every lock acquisition, every blocking channel operation, every condition
+   wait and every call made while a mutex is held, with the mutexes held at that point. The discipline checked below:
+   (1) mutexes are acquired in one global order (stopLock before auxJobsLock) and never while already held;
+   (2) nothing that can block on another thread is executed inside a critical section: no channel send or receive, no
+       blocking select, no call of a function value or of code outside this file other than sync/atomic, panic and the
+       (no-op) verifPoint hook; a call of a function of this file is allowed if, transitively, it acquires only mutexes later
+       in the order and never blocks;
+   (3) the only wait inside a critical section is stopCond.Wait() with exactly stopLock held (sync.Cond.Wait releases it).
+   Under the Go semantics of sync.Mutex this rules out every deadlock in which a mutex takes part (no cycle in the lock order,
+   no thread sleeps holding a mutex another one needs); what remains are waits on channels and on the condition variable,
+   which the model's theorems are about (C07: a stop request is never lost and the exit path is finite; C04: no lost wake-up). *)
+Definition srow := (string * string * string * list string)%type.
+Definition s_unit (r : srow) := let '(u, _, _, _) := r in u.
+Definition s_kind (r : srow) := let '(_, k, _, _) := r in k.
+Definition s_what (r : srow) := let '(_, _, w, _) := r in w.
+Definition s_held (r : srow) := let '(_, _, _, h) := r in h.
+
+Definition lock_rank (l : string) : option nat :=
+  if String.eqb l "stopLock" then Some 0 else if String.eqb l "auxJobsLock" then Some 1 else None.
+Definition before (h l : string) : bool :=
+  match lock_rank h, lock_rank l with Some a, Some b => Nat.ltb a b | _, _ => false end.
+
+Definition ext_ok_holding : list string := ["ext:atomic.StoreInt32"; "ext:atomic.LoadInt32"; "ext:panic"; "ext:verifPoint"].
+Definition is_ext (f : string) : bool := String.prefix "ext:" f.
+Definition blocking_kind (k : string) : bool := mem k ["chan-send"; "chan-recv"; "select-blocking"; "cond-wait"].
+
+Section Sync.
+Variable t : list srow.
+Definition rows_of (u : string) : list srow := filter (fun r => String.eqb (s_unit r) u) t.
+Definition callees (u : string) : list string :=
+  flat_map (fun r => if (String.eqb (s_kind r) "call" || String.eqb (s_kind r) "call-holding") && negb (is_ext (s_what r)) then [s_what r] else []) (rows_of u).
+(* units reachable through calls of functions of this file (function literals are units of their own: they run where they
+   are invoked — as aux jobs, timer jobs, goroutines — never inside the critical section that creates them) *)
+Fixpoint reach_units (fuel : nat) (todo seen : list string) : list string :=
+  match fuel with
+  | O => seen
+  | S f => match todo with
+           | [] => seen
+           | u :: rest => if mem u seen then reach_units f rest seen else reach_units f (callees u ++ rest) (u :: seen)
+           end
+  end.
+Definition closure (u : string) : list string := reach_units (S (length t * 4)) [u] [].
+Definition trans_acq (u : string) : list string :=
+  flat_map (fun v => flat_map (fun r => if String.eqb (s_kind r) "lock" then [s_what r] else []) (rows_of v)) (closure u).
+Definition trans_blocks (u : string) : bool :=
+  existsb (fun v => existsb (fun r => blocking_kind (s_kind r) || (String.eqb (s_kind r) "call" && is_ext (s_what r) && negb (mem (s_what r) ["ext:atomic.StoreInt32"; "ext:atomic.LoadInt32"; "ext:verifPoint"; "ext:len"; "ext:append"; "ext:int"]))) (rows_of v)) (closure u).
+
+Definition row_ok (r : srow) : bool :=
+  let k := s_kind r in let h := s_held r in
+  if String.eqb k "lock" then forallb (fun x => before x (s_what r)) h && (match lock_rank (s_what r) with Some _ => true | None => false end)
+  else if String.eqb k "call-holding" then
+    (if is_ext (s_what r) then mem (s_what r) ext_ok_holding
+     else forallb (fun l => forallb (fun x => before x l) h) (trans_acq (s_what r)) && negb (trans_blocks (s_what r)))
+  else if String.eqb k "cond-wait" then String.eqb (s_what r) "loop.stopCond" && (match h with [x] => String.eqb x "stopLock" | _ => false end)
+  else if blocking_kind k then (match h with [] => true | _ => false end)
+  else true.
+Definition lock_discipline : bool := forallb row_ok t.
+End Sync.
+
+Lemma lock_discipline_spec t : lock_discipline t = true -> forall r, In r t -> row_ok t r = true.
+Proof. unfold lock_discipline. intro H. apply forallb_forall. exact H. Qed.
+
+Theorem loop_lock_discipline : lock_discipline loop_sync = true.
+Proof. vm_compute. reflexivity. Qed.
+
+(* non-vacuity: the table has nested acquisitions, calls under a lock and the condition wait *)
+Example loop_sync_nonvacuous :
+  existsb (fun r => String.eqb (s_kind r) "lock" && match s_held r with [] => false | _ => true end) loop_sync = true /\
+  existsb (fun r => String.eqb (s_kind r) "call-holding" && negb (is_ext (s_what r))) loop_sync = true /\
+  existsb (fun r => String.eqb (s_kind r) "cond-wait") loop_sync = true /\
+  (* and the check is not trivially true: swapping the order of the two mutexes is rejected *)
+  lock_discipline [("f", "lock", "auxJobsLock", []); ("f", "lock", "stopLock", ["auxJobsLock"])]%string = false /\
+  lock_discipline [("f", "lock", "stopLock", []); ("f", "chan-send", "c", ["stopLock"])]%string = false /\
+  lock_discipline [("f", "lock", "stopLock", []); ("f", "call-holding", "g", ["stopLock"]); ("g", "chan-recv", "c", [])]%string = false.
+Proof. vm_compute. repeat split; reflexivity. Qed.
